@@ -70,4 +70,55 @@ theorem salsa20_panics_iff (key nonce inp : Bytes) :
     · simp [h8]
     · simp [h24, h8]
 
+/-! ## published test vectors as non-vacuity instances (kernel-evaluated) -/
+
+def vecSpecKey : Bytes := [1, 2, 3, 4, 5, 6, 7, 8, 9, 10, 11, 12, 13, 14, 15, 16, 201, 202, 203, 204, 205, 206, 207, 208, 209, 210, 211, 212, 213, 214, 215, 216]
+def vecSpecN : Bytes := [101, 102, 103, 104, 105, 106, 107, 108, 109, 110, 111, 112, 113, 114, 115, 116]
+def vecSpecOut : Bytes := [69, 37, 68, 39, 41, 15, 107, 193, 255, 139, 122, 6, 170, 233, 217, 98, 89, 144, 182, 106, 21, 51, 200, 65, 239, 49, 222, 34, 215, 114, 40, 126, 104, 197, 7, 225, 197, 153, 31, 2, 102, 78, 76, 176, 84, 245, 246, 184, 177, 160, 133, 130, 6, 72, 149, 119, 192, 195, 132, 236, 234, 103, 246, 74]
+def vec7914In : Bytes := [126, 135, 154, 33, 79, 62, 201, 134, 124, 169, 64, 230, 65, 113, 143, 38, 186, 238, 85, 91, 140, 97, 193, 181, 13, 248, 70, 17, 109, 205, 59, 29, 238, 36, 243, 25, 223, 155, 61, 133, 20, 18, 30, 75, 90, 197, 170, 50, 118, 2, 29, 41, 9, 199, 72, 41, 237, 235, 198, 141, 184, 184, 194, 94]
+def vec7914Out : Bytes := [164, 31, 133, 156, 102, 8, 204, 153, 59, 129, 202, 203, 2, 12, 239, 5, 4, 75, 33, 129, 162, 253, 51, 125, 253, 123, 28, 99, 150, 104, 47, 41, 180, 57, 49, 104, 227, 201, 230, 188, 254, 107, 197, 183, 160, 109, 150, 186, 228, 36, 204, 16, 44, 145, 116, 92, 36, 173, 103, 61, 199, 97, 143, 129]
+def vecNaclShared : Bytes := [74, 93, 157, 91, 164, 206, 45, 225, 114, 142, 59, 244, 128, 53, 15, 37, 224, 126, 33, 201, 71, 209, 158, 51, 118, 240, 155, 60, 30, 22, 23, 66]
+def vecNaclFirstKey : Bytes := [27, 39, 85, 100, 115, 233, 133, 212, 98, 205, 81, 25, 122, 154, 70, 199, 96, 9, 84, 158, 172, 100, 116, 242, 6, 196, 238, 8, 68, 246, 131, 137]
+
+set_option maxRecDepth 100000 in
+/-- Salsa20 specification §9, first example: Salsa20_k(n) for k = 1..16 ‖ 201..216, n = 101..116 —
+    the specification function and the Go-shaped `core` both give the published block -/
+example : salsa20Block vecSpecKey vecSpecN = vecSpecOut ∧ coreGo vecSpecN vecSpecKey sigma = vecSpecOut := by
+  decide +kernel
+
+set_option maxRecDepth 100000 in
+/-- RFC 7914 §8: the Salsa20/8 core test vector -/
+example : core208 vec7914In = vec7914Out ∧ core208Go vec7914In = vec7914Out := by decide +kernel
+
+set_option maxRecDepth 100000 in
+/-- "Cryptography in NaCl" §8: firstkey = HSalsa20(shared secret, 0¹⁶) -/
+example : hsalsa20 vecNaclShared (zeros 16) = vecNaclFirstKey ∧
+    hsalsa20Go (zeros 16) vecNaclShared sigma = vecNaclFirstKey := by decide +kernel
+
+set_option maxRecDepth 100000 in
+/-- a three-block message at block counter 2^32−1 (the carry into the high word happens after the first
+    block): portable code = specification, and the counter blocks used are …ffffffff00000000, …0000000001000000 -/
+example : genericXORKeyStream vecSpecKey ([1,2,3,4,5,6,7,8] ++ [0xff,0xff,0xff,0xff,0,0,0,0]) (zeros 130) =
+    xorKeyStream vecSpecKey ([1,2,3,4,5,6,7,8] ++ [0xff,0xff,0xff,0xff,0,0,0,0]) (zeros 130) ∧
+    counterAt ([1,2,3,4,5,6,7,8] ++ [0xff,0xff,0xff,0xff,0,0,0,0]) 1 = [1,2,3,4,5,6,7,8] ++ [0,0,0,0,1,0,0,0] := by
+  decide +kernel
+
+/-- `core(out, in, k, c)` and `HSalsa20(out, in, k, c)` for EVERY 16-byte constant c (not only σ): the Salsa20/20
+    core resp. HSalsa20 of the block c0 ‖ k0 ‖ c1 ‖ in ‖ c2 ‖ k1 ‖ c3 -/
+theorem core_eq_spec_any_constant (inp k c : Bytes) (hk : k.length = 32) (hi : inp.length = 16) (hc : c.length = 16) :
+    coreGo inp k c = core 20 (expandC c k inp) := coreGo_eqC inp k c hk hi hc
+
+theorem hsalsa20_eq_spec_any_constant (inp k c : Bytes) (hk : k.length = 32) (hi : inp.length = 16)
+    (hc : c.length = 16) : hsalsa20Go inp k c = hsalsa20C c k inp := hsalsa20Go_eqC inp k c hk hi hc
+
+/-- with c = σ the general definitions are the standard ones -/
+theorem constant_sigma (k inp : Bytes) : expandC sigma k inp = expand k inp ∧ hsalsa20C sigma k inp = hsalsa20 k inp :=
+  ⟨rfl, rfl⟩
+
+/-- non-vacuity of `salsa20_xor_eq_spec` / `salsa20_panics_iff`: an XSalsa20 call, a Salsa20 call, a 12-byte nonce -/
+example : (salsa20XORKeyStream vecSpecKey (zeros 24) [1, 2, 3]).isSome ∧
+    (salsa20XORKeyStream vecSpecKey (zeros 8) [1, 2, 3]).isSome ∧
+    salsa20XORKeyStream vecSpecKey (zeros 12) [1, 2, 3] = none := by
+  refine ⟨by simp [salsa20XORKeyStream, zeros], by simp [salsa20XORKeyStream, zeros], by simp [salsa20XORKeyStream, zeros]⟩
+
 end XC.C09
